@@ -23,6 +23,9 @@ Ghost fields (never consulted by control flow): `live` (the node of waiter `w` h
 access to a node field, with a snapshot of the node's liveness and publication at the moment of the access), and the
 ghosts of the list-level model (`wins`, `winner`, `subscribed`, `woken`, `observed`).
 
+Not modelled (assumption of DESIGN §4.4, as at list level): `sync_awaiter::wakeup` calls `flag.notify_all()` after the releasing
+`flag.store(true)`; it is assumed to use only the *address* of the atomic.  The `assert`s of `awaiter.h` are not accesses of the model.
+
 `ChainPtrProofs.lean` proves that this model refines `Chain.lean` (`abs`, `sim_step`, `sim_run`) and that no access ever
 touches a dead node.  The section `AsIs` at the end is the classic broken walker (resume before reading `_next`), used
 only by a `decide` witness in `Props/C02.lean`.
@@ -234,10 +237,13 @@ def resolveStep (c : Cfg) (s : State) (t : Nat) (dt : Bool) : State × List Ev :
 
 /-! ## the waiters -/
 
-/-- the plain segment before a CAS attempt: before the first one the resumption target is stored into the node; the
-expected value is read from `_next` -/
+/-- the plain segment before a CAS attempt: before the first one the resumption target is stored into the node, before a
+retry the loop body tests `_next == &ready_state`; then the CAS reads its expected value from `_next` -/
 def prepare (s : State) (t : Nat) (first : Bool) : State :=
-  acc (if first then acc s t t Field.handle true else s) t t Field.next false
+  { s with log := s.log
+      ++ [{ agent := t, node := t, field := if first then Field.handle else Field.next, write := first,
+            live := s.live t, pub := s.subscribed t }]
+      ++ [{ agent := t, node := t, field := Field.next, write := false, live := s.live t, pub := s.subscribed t }] }
 
 /-- one attempt of `subscribe_check_ready`'s `compare_exchange_weak(_next, this)` -/
 def casStep (c : Cfg) (s : State) (t : Nat) (first : Bool) : State × List Ev :=
@@ -255,9 +261,9 @@ def casStep (c : Cfg) (s : State) (t : Nat) (first : Bool) : State × List Ev :=
     ({ setPc (acc (prepare s t first) t t Field.next true) t (Pc.wCas false) with next := upd s.next t s.head },
      [Ev.opCas t false s.head])
 
-/-- `_next = nullptr` on the refused path -/
+/-- the refused path: the test `_next == &ready_state` succeeds, `_next = nullptr` -/
 def clearNext (s : State) (t : Nat) : State :=
-  { acc s t t Field.next true with next := upd s.next t Seen.null }
+  { acc (acc s t t Field.next false) t t Field.next true with next := upd s.next t Seen.null }
 
 def readStep (c : Cfg) (s : State) (t : Nat) : State × List Ev :=
   if needsLoad s.payload (wkOf c t) then (setPc s t (Pc.wRead2 s.head), [Ev.opLoadSlot t s.head])
